@@ -193,6 +193,238 @@ def plain_job(memtype):
     return memtype, recs, time.time() - t0
 
 
+# ---- LPDDR4 / LPDDR5 -----------------------------------------------------------------------------------------------------------
+# independent decoders (JESD209-4 MR1/MR2, JESD209-5 MR1/MR2; tables typed here, not taken from the repository)
+LP4_NWR = {0: 6, 1: 10, 2: 16, 3: 20, 4: 24, 5: 30, 6: 34, 7: 40}
+LP4_RL = {0: 6, 1: 10, 2: 14, 3: 20, 4: 24, 5: 28, 6: 32, 7: 36}          # DBI-RD disabled
+LP4_WL_A = {0: 4, 1: 6, 2: 8, 3: 10, 4: 12, 5: 14, 6: 16, 7: 18}
+LP4_BL = {0: 16, 1: 32, 2: "otf"}
+LP4_TWR = Fraction(18, 10**9)
+LP5_WL_A = {2: [4, 4, 6, 8, 8, 10], 4: [2, 2, 3, 4, 4, 5, 6, 6, 7, 8, 9, 9]}
+LP5_RL_0 = {2: [6, 8, 10, 12, 16, 18], 4: [3, 4, 5, 6, 8, 9, 10, 12, 13, 15, 16, 17]}
+LP5_NWR = {2: [5, 10, 14, 19, 24, 28], 4: [3, 5, 7, 10, 12, 14, 16, 19, 21, 24, 26, 28]}
+
+
+def _nested_function(path, cls, meth, name, ns):
+    """compile a function nested in cls.meth out of the CURRENT source (the LPDDR4 PHY keeps its latency table there)"""
+    import ast
+    tree = ast.parse(open(path).read())
+    for c in tree.body:
+        if isinstance(c, ast.ClassDef) and c.name == cls:
+            for f in c.body:
+                if isinstance(f, ast.FunctionDef) and f.name == meth:
+                    for n in ast.walk(f):
+                        if isinstance(n, ast.FunctionDef) and n.name == name:
+                            mod = ast.Module(body=[n], type_ignores=[])
+                            exec(compile(mod, path, "exec"), ns)
+                            return ns[name]
+    raise KeyError(name)
+
+
+def _step_rows(f, lo=1e-11, hi=1e-6):
+    """(tck_lo, tck_hi, value) rows of a step function of tck, recovered from the REAL function by bisection"""
+    pts = [lo * (hi / lo) ** (i / 4000) for i in range(4001)]
+    rows = []
+    cur = f(pts[0])
+    start = pts[0]
+    for a, b in zip(pts, pts[1:]):
+        fb = f(b)
+        if fb != cur:
+            x, y = a, b
+            for _ in range(80):
+                mid = (x + y) / 2
+                if f(mid) == cur:
+                    x = mid
+                else:
+                    y = mid
+            if cur is not None:
+                rows.append((start, y, cur))
+            start, cur = y, fb
+    if cur is not None:
+        rows.append((start, None, cur))
+    return rows
+
+
+def _cases(v):
+    from vlib import pysym
+    return v.cases if isinstance(v, pysym.SymEnum) else [(z3.BoolVal(True), v)]
+
+
+def lp_concrete(kind, cl, cwl, tck):
+    """concrete re-run of the REAL (uninstrumented) generator: the set of goals violated for these latencies/clock"""
+    from litedram import init as real_init
+    ratio = None if kind == "LPDDR4" else int(kind[-1])
+    rps = O()
+    rps.cl, rps.cwl, rps.memtype, rps.nphases = cl, cwl, kind[:6], (8 if kind == "LPDDR4" else 1)
+    if ratio:
+        rps.wck_ck_ratio = ratio
+    try:
+        seq, _ = getattr(real_init, "get_%s_phy_init_sequence" % kind[:6].lower())(rps, O())
+    except Exception as e:
+        return {"no_table_miss_or_failed_assert_for_selectable_latencies"}, dict(exception=repr(e))
+    mrw = {e[2]: e[1] for e in seq if e[3] == real_init.cmds["MODE_REGISTER"]}
+    out = set()
+    for ba in (1, 2):
+        if ba not in mrw:
+            out.add("mode_register_%d_written" % ba)
+    if any(not (0 <= v < 256) for v in mrw.values()):
+        out.add("mode_register_opcode_fits_8_bits")
+    v1, v2 = mrw.get(1, 0), mrw.get(2, 0)
+    if kind == "LPDDR4":
+        if LP4_BL.get(bits(v1, 1, 0)) != 16:
+            out.add("mr1_burst_length_is_16")
+        if LP4_NWR[bits(v1, 6, 4)] * Fraction(tck) < LP4_TWR * (1 - TOL):
+            out.add("mr1_nwr_covers_tWR_18ns_at_every_clock_selecting_this_latency")
+        if LP4_RL[bits(v2, 2, 0)] != cl:
+            out.add("mr2_rl_decodes_to_phy_cl")
+        if LP4_WL_A[bits(v2, 5, 3)] != cwl:
+            out.add("mr2_wl_decodes_to_phy_cwl")
+        if bits(v2, 6, 6):
+            out.add("mr2_wl_set_A")
+    else:
+        i, j, w = bits(v2, 3, 0), bits(v2, 7, 4), bits(v1, 7, 4)
+        if w >= len(LP5_WL_A[ratio]) or LP5_WL_A[ratio][w] != cwl:
+            out.add("mr1_wl_decodes_to_phy_cwl")
+        if v1 & 0xf:
+            out.add("mr1_reserved_or_ck_mode_bits_zero")
+        if i >= len(LP5_RL_0[ratio]) or LP5_RL_0[ratio][i] != cl:
+            out.add("mr2_rl_decodes_to_phy_cl")
+        if j >= len(LP5_NWR[ratio]) or j != i:
+            out.add("mr2_nwr_code_is_the_one_of_the_selected_frequency_range")
+        if bits(mrw.get(18, 0), 7, 7) != {2: 1, 4: 0}[ratio]:
+            out.add("mr18_ckr_matches_wck_ck_ratio")
+    return out, dict(mr1=v1, mr2=v2, mr18=mrw.get(18))
+
+
+def lp_job(kind):
+    """LPDDR4 / LPDDR5 (per WCK:CK ratio): MR1/MR2 decode consistency with the latencies the PHY selects"""
+    from vlib import pysym, harness
+    import collections
+    recs = []
+    t0 = time.time()
+    try:
+        m = init_mod()
+        CL, CWL, TCK = z3.Int("CL"), z3.Int("CWL"), z3.Real("TCK")
+        if kind == "LPDDR4":
+            sel = _nested_function(os.path.join(harness.REPO, "litedram/phy/lpddr4/basephy.py"), "LPDDR4PHY", "__init__", "get_cl_cw",
+                                   {"OrderedDict": collections.OrderedDict})
+            def f(tck):
+                try:
+                    return tuple(sel("LPDDR4", tck))
+                except ValueError:
+                    return None
+            ratio = None
+            fn = m.get_lpddr4_phy_init_sequence
+            real_fn_name = "get_lpddr4_phy_init_sequence"
+        else:
+            ratio = int(kind[-1])
+            from litedram.phy.lpddr5 import basephy as lp5
+            def f(tck):
+                try:
+                    fr = lp5.get_frange(tck / ratio, ratio).for_set(wl_set="A", rl_set=0)
+                    return (fr.rl, fr.wl)
+                except ValueError:
+                    return None
+            fn = m.get_lpddr5_phy_init_sequence
+            real_fn_name = "get_lpddr5_phy_init_sequence"
+        rows = _step_rows(f, lo=1e-10, hi=1e-7)
+        pairs = sorted({r[2] for r in rows})
+        # the PHY selects (CL, CWL) from its clock: TCK ranges over the row(s) that select the pair
+        dom = z3.Or(*[z3.And(CL == c, CWL == w, TCK >= z3.RealVal(Fraction(lo)), TCK < z3.RealVal(Fraction(hi))) if hi is not None else
+                      z3.And(CL == c, CWL == w, TCK >= z3.RealVal(Fraction(lo)), TCK <= z3.RealVal(Fraction(1, 10**7)))
+                      for lo, hi, (c, w) in rows])
+        ps, ts = O(), O()
+        ps.cl = pysym.SymEnum.of_int_var(CL, sorted({c for c, w in pairs}))
+        ps.cwl = pysym.SymEnum.of_int_var(CWL, sorted({w for c, w in pairs}))
+        ps.memtype = kind[:6]
+        ps.nphases = 8 if kind == "LPDDR4" else 1
+        if ratio:
+            ps.wck_ck_ratio = ratio
+        label = kind
+        errs, bad = [], collections.defaultdict(list)
+        npaths = 0
+        for pc, res, perrs in pysym.fork_run(lambda: fn(ps, ts)):
+            npaths += 1
+            errs += perrs
+            if res is None:
+                continue
+            seq, mr = res
+            mrw = {}
+            for e in seq:
+                if e[3] == m.cmds["MODE_REGISTER"]:
+                    for cb, ba in _cases(e[2]):
+                        mrw.setdefault(ba, []).append((z3.And(pc, cb), e[1]))
+            for ba in (1, 2):
+                if ba not in mrw:
+                    bad["mode_register_%d_written" % ba].append(pc)
+            for e in seq:
+                if e[3] == m.cmds["MODE_REGISTER"]:
+                    for ca, a in _cases(e[1]):
+                        if not (isinstance(a, int) and 0 <= a < 256):
+                            bad["mode_register_opcode_fits_8_bits"].append(z3.And(pc, ca))
+            for cb, val in mrw.get(1, []):
+                for ca, v in _cases(val):
+                    c = z3.And(cb, ca)
+                    if kind == "LPDDR4":
+                        if LP4_BL.get(bits(v, 1, 0)) != 16:
+                            bad["mr1_burst_length_is_16"].append(c)
+                        nwr = LP4_NWR[bits(v, 6, 4)]
+                        bad["mr1_nwr_covers_tWR_18ns_at_every_clock_selecting_this_latency"].append(
+                            z3.And(c, nwr * TCK < z3.RealVal(LP4_TWR * (1 - TOL))))
+                    else:
+                        wl = LP5_WL_A[ratio][bits(v, 7, 4)] if bits(v, 7, 4) < len(LP5_WL_A[ratio]) else None
+                        bad["mr1_wl_decodes_to_phy_cwl"].append(c if wl is None else z3.And(c, CWL != wl))
+                        if bits(v, 3, 3) != 0 or bits(v, 2, 0) != 0:
+                            bad["mr1_reserved_or_ck_mode_bits_zero"].append(c)
+            for cb, val in mrw.get(2, []):
+                for ca, v in _cases(val):
+                    c = z3.And(cb, ca)
+                    if kind == "LPDDR4":
+                        bad["mr2_rl_decodes_to_phy_cl"].append(z3.And(c, CL != LP4_RL[bits(v, 2, 0)]))
+                        bad["mr2_wl_decodes_to_phy_cwl"].append(z3.And(c, CWL != LP4_WL_A[bits(v, 5, 3)]))
+                        if bits(v, 6, 6) != 0:
+                            bad["mr2_wl_set_A"].append(c)
+                    else:
+                        i, j = bits(v, 3, 0), bits(v, 7, 4)
+                        rl = LP5_RL_0[ratio][i] if i < len(LP5_RL_0[ratio]) else None
+                        bad["mr2_rl_decodes_to_phy_cl"].append(c if rl is None else z3.And(c, CL != rl))
+                        if j >= len(LP5_NWR[ratio]) or j != i:
+                            bad["mr2_nwr_code_is_the_one_of_the_selected_frequency_range"].append(c)
+            if kind != "LPDDR4":
+                for cb, val in mrw.get(18, []):
+                    for ca, v in _cases(val):
+                        if bits(v, 7, 7) != {2: 1, 4: 0}[ratio]:
+                            bad["mr18_ckr_matches_wck_ck_ratio"].append(z3.And(cb, ca))
+        want = ["mode_register_1_written", "mode_register_2_written", "mode_register_opcode_fits_8_bits", "mr2_rl_decodes_to_phy_cl"]
+        want += (["mr1_burst_length_is_16", "mr1_nwr_covers_tWR_18ns_at_every_clock_selecting_this_latency", "mr2_wl_decodes_to_phy_cwl",
+                  "mr2_wl_set_A"] if kind == "LPDDR4" else
+                 ["mr1_wl_decodes_to_phy_cwl", "mr1_reserved_or_ck_mode_bits_zero", "mr2_nwr_code_is_the_one_of_the_selected_frequency_range",
+                  "mr18_ckr_matches_wck_ck_ratio"])
+        solve(recs, label, "no_table_miss_or_failed_assert_for_selectable_latencies", [dom, z3.Or(*[c for c, w in errs])] if errs
+              else [z3.BoolVal(False)], info="%d error sites on %d paths; %d latency pairs" % (len(errs), npaths, len(pairs)))
+        if errs:
+            recs[-1]["errors"] = sorted({w for c, w in errs})[:6]
+        for q in want:
+            solve(recs, label, q, [dom, z3.Or(*bad[q])] if bad[q] else [z3.BoolVal(False)])
+        solve(recs, label, "witness_domain_nonempty", [dom], expect="sat")
+        # replay every counterexample on the real (uninstrumented) generator with the model's concrete latencies and clock
+        for r in recs:
+            if r["result"] == "sat" and r["expect"] == "unsat":
+                cl, cwl = int(r["model"].get("CL", 0)), int(r["model"].get("CWL", 0))
+                tck = Fraction(r["model"].get("TCK", "1/1000000000"))
+                viol, detail = lp_concrete(kind, cl, cwl, tck)
+                r["replay"] = dict(cl=cl, cwl=cwl, tck=float(tck), violated=sorted(viol), confirmed=r["q"] in viol, **detail)
+                if r["q"] not in viol:
+                    r["result"] = "unknown"
+                    r["info"] = "model does not reproduce on the real generator: %r" % r["replay"]
+    except Exception as e:
+                    r["replay"] = dict(cl=cl, cwl=cwl, exception=repr(e))
+    except Exception as e:
+        import traceback
+        recs.append(dict(bench=kind, q="encode", result="unknown", s=0.0, expect="unsat", info="%r %s" % (e, traceback.format_exc()[-600:])))
+    return kind, recs, time.time() - t0
+
+
 def _is_wr_miss(what):
     return what.startswith("KeyError") and ("[10, 12, 14, 16" in what or "[10, 12, 14, 16, 5" in what or "table [10, 12, 14, 16, 18" in what
                                             or "[10, 12, 14, 16, 5, 6, 7, 8]" in what)
@@ -405,6 +637,14 @@ BENCHES = {}
 
 
 def replay_custom(data):
+    if data.get("cls") is None and str(data["rec"].get("bench", "")).startswith("LPDDR"):
+        mdl = data["rec"]["model"]
+        viol, detail = lp_concrete(data["rec"]["bench"], int(mdl["CL"]), int(mdl["CWL"]), Fraction(mdl.get("TCK", "1/1000000000")))
+        print("re-run of the real generator:", detail, "violated:", sorted(viol))
+        if data["rec"]["q"] in viol:
+            print("VIOLATION property=C17 replay=%s" % data.get("path", "<file>"))
+            return 1
+        return 0
     rp = replay_wr(data["cls"], data["rec"])
     print("re-run of the real generators with doubles:", rp)
     if rp.get("confirmed"):
@@ -417,7 +657,9 @@ def run(ctx):
     from checks.c16 import module_classes
     from litedram import modules
     ctx.assume("CL/CWL: the pairs common.get_default_cl_cwl returns (what the PHYs select unless the user overrides); default "
-               "electrical settings; no RDIMM; LPDDR4/LPDDR5/RPC generators are not covered by this check")
+               "electrical settings; no RDIMM; RPC generator not covered.  LPDDR4: the (RL, WL) pairs LPDDR4PHY.get_cl_cw returns, tCK over "
+               "the range selecting each pair, tWR = 18 ns; LPDDR5: the (RL, WL) pairs get_frange() returns for WCK:CK 2 and 4 (set A / "
+               "set 0), decode consistency only (its nWR-vs-tWR relation is JEDEC's own table and is not re-derived)")
     ctx.assume("module-linked obligations: controller clock symbolic over the same per-class interval as C16, natural rates; "
                "quick tier: first speedgrade(s) per class")
     names = [n for n in module_classes() if getattr(modules, n).memtype in ("DDR2", "DDR3", "DDR4")]
@@ -427,6 +669,8 @@ def run(ctx):
     allrecs = []
     with cf.ProcessPoolExecutor(max_workers=ctx.jobs_n, mp_context=ctxm) as ex:
         for name, recs, secs in ex.map(plain_job, ["SDR", "DDR", "LPDDR", "DDR2", "DDR3", "DDR4"], chunksize=1):
+            allrecs.append((None, recs))
+        for name, recs, secs in ex.map(lp_job, ["LPDDR4", "LPDDR5_2", "LPDDR5_4"], chunksize=1):
             allrecs.append((None, recs))
         for name, recs, secs in ex.map(module_job, [(n, ctx.tier) for n in names], chunksize=1):
             allrecs.append((name, recs))
